@@ -204,7 +204,7 @@ func C08(r *core.Run) {
 				init := state{0, initTree, nil, 0}
 				seen := map[string]bool{key(init): true}
 				frontier := []state{init}
-				var terminals []state
+				var terminals, mids []state
 				for len(frontier) > 0 {
 					s := frontier[0]
 					frontier = frontier[1:]
@@ -212,6 +212,9 @@ func C08(r *core.Run) {
 					if s.done == 1<<len(files)-1 {
 						terminals = append(terminals, s)
 						continue
+					}
+					if s.done != 0 {
+						mids = append(mids, s)
 					}
 					for fi, f := range files {
 						if s.done&(1<<fi) != 0 {
@@ -283,6 +286,19 @@ func C08(r *core.Run) {
 				}
 				if all.Exit != 0 && cmd != "compare" {
 					fail("all-equals-any-order-"+cmd, "--all fails although every file succeeds alone", tailStr(all.Stderr, 300))
+				}
+				// --all from every state in between (some files already processed, others not) must reach the same end state
+				if cmd == "update" {
+					for _, m := range mids {
+						os.RemoveAll(sb)
+						m.tree.Materialise(sb)
+						res := core.RunCLI(r.Crs, sb, "", nil, "-d", sb, "regex", cmd, "--all")
+						o.Transitions++
+						if got := core.ReadTree(sb); res.Exit != 0 || treeHash(got) != treeHash(term.tree) {
+							fail("all-equals-any-order-"+cmd, fmt.Sprintf("--all started after the single invocations of files %b (bit set) does not reach the state that all single invocations reach (exit %d)", m.done, res.Exit), diffTrees(term.tree, got))
+							break
+						}
+					}
 				}
 			}
 		}
